@@ -1,0 +1,9 @@
+//go:build !verif
+
+// Package verifhook provides named yield/gate points for the verification
+// harness in /verif. Without the build tag "verif" Point does nothing.
+package verifhook
+
+// Point marks a place where the verification harness may perturb or gate
+// the schedule; it is a no-op in normal builds.
+func Point(string) {}
